@@ -4,11 +4,13 @@
   interleave `NEED <prim>` lines, each answered by one line on stdin.
 -/
 import Driver.StackFam
+import Driver.SelFam
 open Driver
 
 def dispatch (stdin stdout : IO.FS.Stream) (line : String) : IO String := do
   match splitWs line with
   | "stack" :: args => pure (StackFam.handle args)
+  | "sel" :: args => SelFam.handle stdin stdout args
   | "ping" :: _ => pure "pong"
   | _ => pure "bad-family"
 
